@@ -128,9 +128,11 @@ std::vector<ShamirShare> Shamir::split(const std::array<std::uint8_t, 32>& secre
     std::vector<ShamirShare> shares;
     shares.reserve(share_count);
 
-    for (std::uint8_t share_index = 1; share_index <= share_count; ++share_index) {
+    // The counter must be wider than std::uint8_t: with share_count == 255 an 8-bit
+    // counter wraps to 0 and `share_index <= share_count` never becomes false.
+    for (unsigned share_index = 1; share_index <= share_count; ++share_index) {
         ShamirShare share{};
-        share.index = share_index;
+        share.index = static_cast<std::uint8_t>(share_index);
         shares.push_back(share);
     }
 
